@@ -3,6 +3,7 @@ import TakVerif.Props.C20_size4
 import TakVerif.Props.C20_size5
 import TakVerif.Proofs.Glue
 import TakVerif.Proofs.Reach
+import TakVerif.Proofs.Bot
 import TakVerif.Proofs.ApplyCfg
 import TakVerif.Proofs.HashInv
 
@@ -491,6 +492,34 @@ theorem friendly_total (fpa : Option (Variant × Rule)) (g : GameRec) (p : Pos) 
       split
       · exact ⟨_, rfl⟩
       · cases y <;> simp only [hw] <;> exact ⟨_, rfl⟩
+
+/-- **In the bot loop** (`Impl/Bot.lean`, the model of `playtak/bot/bot.go` with the stale-answer fix): after ANY
+interleaving of server lines, thinker hand-overs, AI answers and timer expiries, as long as the protocol goroutine
+has not crashed and the record holds at least one move, `Friendly.GetMove` does not panic on the record — for a
+thinker started on any position, current or stale (`Tak.Bot.Core.shape`: `len(Positions) = len(Moves) + 1`). -/
+theorem friendly_total_in_bot_loop (cfg : Bot.Conf) (hfix : cfg.fixed = true) (size : Nat) (secs : Int)
+    (evs : List Bot.Ev) (hnc : ¬ (Bot.run cfg (Bot.start cfg size secs) evs).crashed)
+    (hm : (Bot.run cfg (Bot.start cfg size secs) evs).moves ≠ [])
+    (fpa : Option (Variant × Rule)) (p : Pos) (o : CheckOracle)
+    (hrule : RuleTotal fpa { color := cfg.color, size := size,
+                              positions := (Bot.run cfg (Bot.start cfg size secs) evs).positions,
+                              moves := (Bot.run cfg (Bot.start cfg size secs) evs).moves } p) :
+    ∃ x, Glue.friendlyGetMove fpa { color := cfg.color, size := size,
+                                    positions := (Bot.run cfg (Bot.start cfg size secs) evs).positions,
+                                    moves := (Bot.run cfg (Bot.start cfg size secs) evs).moves } p o = .ok x := by
+  have hshape := (Bot.sinv_run hfix (Bot.sinv_start cfg size secs) evs).core.shape hnc
+  apply friendly_total _ _ _ _ hrule
+  generalize (Bot.run cfg (Bot.start cfg size secs) evs).moves = ms at hm hshape
+  cases ms with
+  | nil => exact absurd rfl hm
+  | cons m ms => simp only [List.length_cons] at hshape ⊢; omega
+
+/-- the hypotheses on the loop are satisfiable: the bot (White) has answered `a1`; the loop runs, the record holds one move -/
+example :
+    let cfg : Bot.Conf := { basis := Array.replicate 64 0#64, color := .white, gameStr := "Game#7", fixed := true }
+    let s := Bot.run cfg (Bot.start cfg 5 600) [.grant 0, .aiReturns 0 (place 0 0)]
+    s.status = .running ∧ s.moves = [place 0 0] ∧ s.positions.length = 2 := by
+  decide +kernel
 
 /-- **… and exactly there it does panic**: with an FPA rule, a call on a position that is not a start position
 while the record holds fewer than two positions (or no move) is an index panic — the case of a thinker that
